@@ -238,7 +238,7 @@ class Lines(ConnFamily):
                 params = [f"size={size}"] + rng.sample(["mime=text/plain", "token=s3cret", "mime=text/gemini"], rng.randint(0, 2))
                 rng.shuffle(params)
                 b = ("titan" + line[6:] + ";" + ";".join(params)).encode()
-                titan_ok = {"size": size, "path": comps0[2]} if len(b) <= 1022 and ";" not in comps0[2] else None
+                titan_ok = {"size": size, "path": comps0[2], "host": comps0[0], "port": comps0[1]} if len(b) <= 1022 and ";" not in comps0[2] else None
             elif r < 0.85:
                 b = corrupt(rng, grammar_line(rng)[0])
             else:
@@ -310,6 +310,8 @@ class Lines(ConnFamily):
                     return ("upload-content", f"upload handler got {got!r}, the client sent {want!r} as the declared {tk['size']} bytes")
                 if obs["hargs"] and obs["hargs"][0][2] != tk["path"]:
                     return ("components-changed", f"upload handler saw path {obs['hargs'][0][2]!r}, the line denotes {tk['path']!r}")
+                if obs["hargs"] and "host" in tk and obs["hargs"][0][:2] != [tk["host"], tk["port"]]:
+                    return ("components-changed", f"upload handler saw host/port {obs['hargs'][0][:2]}, the line denotes {[tk['host'], tk['port']]}")
             return None
         comps = case.get("comps")
         if comps is not None:
